@@ -7,3 +7,4 @@
 pub mod codecs;
 pub mod pipes;
 pub mod session;
+pub mod shutdown;
